@@ -6,7 +6,7 @@ use crate::runner::{from_case, no_panic, CaseInfo, Check, Ctx, Fail, Report};
 use crate::wire::*;
 use crate::{ensure, ensure_eq};
 use nexrad_data::result::Error as DataError;
-use nexrad_data::volume::File;
+use nexrad_data::volume::{File, Record};
 use proptest::collection::vec;
 use proptest::prelude::*;
 use serde::{Deserialize, Serialize};
@@ -158,6 +158,14 @@ pub fn check_file(c: &FileCase) -> Check {
                     .map_err(|e| Fail::new("roundtrip:decompress-error", format!("record {}: {:?}", i, e)))?;
                 let want = payload.bytes();
                 ensure!(out.data() == &want[..], "roundtrip:payload-differs", "record {}: decompressed {} bytes, payload has {} bytes", i, out.data().len(), want.len());
+                // the record handed back by decompress() is a record like any other: it reports compressed exactly when
+                // 'BZ' follows its first four bytes, and behaves like a record built from the same bytes
+                let out_looks = want.len() >= 6 && &want[4..6] == b"BZ";
+                ensure_eq!(no_panic("Record::compressed", || out.compressed())?, out_looks, "compressed-flag:decompressed-record", "record {}: decompressed payload starts {:?}", i, &want[..want.len().min(8)]);
+                let twin = Record::new(want.clone());
+                ensure_eq!(format!("{:?}", out), format!("{:?}", twin), "roundtrip:decompressed-record-differs-from-twin", "record {}: Debug rendering of decompress()'s record vs Record::new(same bytes)", i);
+                ensure_eq!(no_panic("Record::decompress", || out.decompress().map(|r| r.data().len()).map_err(|e| format!("{:?}", e)))?, twin.decompress().map(|r| r.data().len()).map_err(|e| format!("{:?}", e)), "roundtrip:decompressed-record-differs-from-twin", "record {}: decompress() of decompress()'s record vs of Record::new(same bytes)", i);
+                ensure_eq!(no_panic("Record::messages", || out.messages().map(|m| m.len()).map_err(|e| format!("{:?}", e)))?, twin.messages().map(|m| m.len()).map_err(|e| format!("{:?}", e)), "roundtrip:decompressed-record-differs-from-twin", "record {}: messages() of decompress()'s record vs of Record::new(same bytes)", i);
                 let m = no_panic("Record::messages", || rec.messages())?;
                 ensure!(matches!(m, Err(DataError::CompressedDataError)), "compressed-record-decodes", "record {}: messages() on a compressed record must be CompressedDataError, got {}", i, describe(&m));
                 // a record that carries a valid message stream decodes after decompression
